@@ -17,8 +17,15 @@ def _copy(a):
     return a.copy()
 
 
+def _field(ctx, name, shape, layout):
+    """the array the kernel updates, with the caller's memory layout (C order, interior of a padded allocation, component-/z-last)"""
+    from checks.c11 import _laid_out
+
+    return _laid_out(ctx, name, tuple(shape), layout)
+
+
 @scenario
-def ssprk3_stretching(ctx, shape):
+def ssprk3_stretching(ctx, shape, layout="c"):
     ctx.prefer = "nlsat"
     _, spne, _, _ = sopht_modules()
     shape = tuple(shape)
@@ -26,7 +33,7 @@ def ssprk3_stretching(ctx, shape):
     mid = ctx.array("mid", vs)
     step = spne.gen_vorticity_stretching_timestep_ssprk3_pyst_kernel_3d(real_t=ctx.real_t, midstep_buffer_vector_field=mid, num_threads=False)
     flux = spne.gen_vorticity_stretching_flux_pyst_kernel_3d(real_t=ctx.real_t, num_threads=False)
-    w = ctx.array("w", vs)
+    w = _field(ctx, "w", vs, layout)
     u = ctx.array("u", vs)
     fb = ctx.array("fluxbuf", vs)
     p = ctx.scalar("dt_by_2_dx")
@@ -47,12 +54,12 @@ def ssprk3_stretching(ctx, shape):
 
 
 @scenario
-def euler_stretching(ctx, shape):
+def euler_stretching(ctx, shape, layout="c"):
     _, spne, _, _ = sopht_modules()
     vs = (3, *tuple(shape))
     step = spne.gen_vorticity_stretching_timestep_euler_forward_pyst_kernel_3d(real_t=ctx.real_t, num_threads=False)
     flux = spne.gen_vorticity_stretching_flux_pyst_kernel_3d(real_t=ctx.real_t, num_threads=False)
-    w, u, fb = ctx.array("w", vs), ctx.array("u", vs), ctx.array("fluxbuf", vs)
+    w, u, fb = _field(ctx, "w", vs, layout), ctx.array("u", vs), ctx.array("fluxbuf", vs)
     p = ctx.scalar("dt_by_2_dx")
     w0, u0 = _copy(w), _copy(u)
     step(vorticity_field=w, velocity_field=u, vorticity_stretching_flux_field=fb, dt_by_2_dx=ctx.cast(p))
@@ -63,14 +70,14 @@ def euler_stretching(ctx, shape):
 
 
 @scenario
-def euler_diffusion(ctx, dim, shape, field_type):
+def euler_diffusion(ctx, dim, shape, field_type, layout="c"):
     _, spne, _, _ = sopht_modules()
     shape = tuple(shape)
     p = ctx.scalar("nu_dt_by_dx2")
     if dim == 2:
         step = spne.gen_diffusion_timestep_euler_forward_pyst_kernel_2d(real_t=ctx.real_t, num_threads=False)
         flux = spne.gen_diffusion_flux_pyst_kernel_2d(real_t=ctx.real_t, num_threads=False)
-        f, fb = ctx.array("f", shape), ctx.array("fluxbuf", shape)
+        f, fb = _field(ctx, "f", shape, layout), ctx.array("fluxbuf", shape)
         f0 = _copy(f)
         step(field=f, diffusion_flux=fb, nu_dt_by_dx2=ctx.cast(p))
         buf = ctx.array("oraclebuf", shape)
@@ -79,7 +86,7 @@ def euler_diffusion(ctx, dim, shape, field_type):
     elif field_type == "scalar":
         step = spne.gen_diffusion_timestep_euler_forward_pyst_kernel_3d(real_t=ctx.real_t, num_threads=False, field_type="scalar")
         flux = spne.gen_diffusion_flux_pyst_kernel_3d(real_t=ctx.real_t, num_threads=False, field_type="scalar")
-        f, fb = ctx.array("f", shape), ctx.array("fluxbuf", shape)
+        f, fb = _field(ctx, "f", shape, layout), ctx.array("fluxbuf", shape)
         f0 = _copy(f)
         step(field=f, diffusion_flux=fb, nu_dt_by_dx2=ctx.cast(p))
         buf = ctx.array("oraclebuf", shape)
@@ -89,7 +96,7 @@ def euler_diffusion(ctx, dim, shape, field_type):
         vs = (3, *shape)
         step = spne.gen_diffusion_timestep_euler_forward_pyst_kernel_3d(real_t=ctx.real_t, num_threads=False, field_type="vector")
         flux = spne.gen_diffusion_flux_pyst_kernel_3d(real_t=ctx.real_t, num_threads=False, field_type="vector")
-        f, fb = ctx.array("f", vs), ctx.array("fluxbuf", shape)
+        f, fb = _field(ctx, "f", vs, layout), ctx.array("fluxbuf", shape)
         f0 = _copy(f)
         step(vector_field=f, diffusion_flux=fb, nu_dt_by_dx2=ctx.cast(p))
         buf = ctx.array("oraclebuf", vs)
@@ -98,14 +105,14 @@ def euler_diffusion(ctx, dim, shape, field_type):
 
 
 @scenario
-def euler_advection(ctx, dim, shape, field_type):
+def euler_advection(ctx, dim, shape, field_type, layout="c"):
     _, spne, _, _ = sopht_modules()
     shape = tuple(shape)
     p = ctx.scalar("dt_by_dx")
     if dim == 2:
         step = spne.gen_advection_timestep_euler_forward_conservative_eno3_pyst_kernel_2d(real_t=ctx.real_t, num_threads=False)
         flux = spne.gen_advection_flux_conservative_eno3_pyst_kernel_2d(real_t=ctx.real_t, num_threads=False)
-        f, fb, u = ctx.array("f", shape), ctx.array("fluxbuf", shape), ctx.array("u", (2, *shape))
+        f, fb, u = _field(ctx, "f", shape, layout), ctx.array("fluxbuf", shape), ctx.array("u", (2, *shape))
         f0, u0 = _copy(f), _copy(u)
         step(field=f, advection_flux=fb, velocity=u, dt_by_dx=ctx.cast(p))
         buf = ctx.zeros(shape)  # the flux callable accumulates: oracle starts from the documented zero
@@ -119,12 +126,12 @@ def euler_advection(ctx, dim, shape, field_type):
         fb, u = ctx.array("fluxbuf", shape), ctx.array("u", (3, *shape))
         u0 = _copy(u)
         if field_type == "scalar":
-            f = ctx.array("f", shape)
+            f = _field(ctx, "f", shape, layout)
             f0 = _copy(f)
             step(field=f, advection_flux=fb, velocity=u, dt_by_dx=ctx.cast(p))
             comps = [(f, f0)]
         else:
-            f = ctx.array("f", (3, *shape))
+            f = _field(ctx, "f", (3, *shape), layout)
             f0 = _copy(f)
             step(vector_field=f, advection_flux=fb, velocity=u, dt_by_dx=ctx.cast(p))
             comps = [(f[i], f0[i]) for i in range(3)]
@@ -222,8 +229,17 @@ def main():
         for sh in s2:
             chk.add(euler_diffusion, real_t=rt, dim=2, shape=sh, field_type="scalar")
             chk.add(euler_advection, real_t=rt, dim=2, shape=(sh[0] + 2, sh[1] + 2), field_type="scalar")
+    # memory layout of the updated field: interior window of a padded allocation, component-/z-last storage
+    for lay in ("interior", "fortran"):
+        for rt in precisions:
+            chk.add(ssprk3_stretching, real_t=rt, shape=(4, 3, 5), layout=lay)
+            chk.add(euler_stretching, real_t=rt, shape=(4, 3, 5), layout=lay)
+        chk.add(euler_diffusion, real_t="float64", dim=3, shape=(4, 3, 5), field_type="vector", layout=lay)
+        chk.add(euler_diffusion, real_t="float64", dim=2, shape=(4, 5), field_type="scalar", layout=lay)
+        chk.add(euler_advection, real_t="float64", dim=3, shape=(5, 5, 6), field_type="vector", layout=lay)
+        chk.add(euler_advection, real_t="float64", dim=2, shape=(6, 7), field_type="scalar", layout=lay)
     chk.bounds = [f"3D grids {s3} (stretching, diffusion), {sadv3} (ENO3 advection); 2D grids {s2} (+2 for advection)", f"precisions {precisions}",
-                  "all cell values, velocities, dt prefactor and all prior buffer contents are solver variables"]
+                  "layouts of the updated field: C order, interior of a padded allocation, transposed (component-/z-last) storage", "all cell values, velocities, dt prefactor and all prior buffer contents are solver variables"]
     chk.outside = ["larger grids", "floating-point rounding (exact real arithmetic)", "code generator / C compiler (sampled by replay only)"]
     chk.assumptions = ["exact real arithmetic; literals read by the constant rule of DESIGN 4.2", "vectorised IR evaluation equals C loop order (hazard analysis per call, see C15)"]
     chk.run()
